@@ -296,4 +296,12 @@ crate::harness_table!(BITSEQ:
     bitseq_weight [unwind 66], bitseq_cmp [unwind 10], bitseq_iter [unwind 66],
     bitseq_from_iter [unwind 66], bitseq_generate [unwind 10], bitseq_parse [unwind 5], bitseq_print [unwind 5],
 );
-crate::harness_table_should_panic!(BITSEQ_REJECT: bitseq_reject_push_full, bitseq_reject_new_overlong);
+/// collecting more than 64 bits "would exceed the maximum": it must be rejected, not truncated
+pub fn bitseq_reject_from_iter_overlong(s: &mut Src) -> R {
+    let val = s.u64(); let n = s.usize();
+    pre!(65 <= n && n <= 67);
+    let _ = BitSeq::from_iter((0..n).map(|k| bit_of(val, k % 64))); // must not return
+    Ok(())
+}
+
+crate::harness_table_should_panic!(BITSEQ_REJECT: bitseq_reject_push_full, bitseq_reject_new_overlong, bitseq_reject_from_iter_overlong [unwind 69]);
